@@ -146,7 +146,13 @@ def check(ctx):
                     if s is not None:
                         direct, through, _, re_ = G.setter_stores(P, s)
                         if attr in direct | through | re_:
-                            ok = True
+                            # ... and it must do so on every path: the hook re-assigns the value that load_state_dict just
+                            # copied in place, so a skip-if-unchanged shortcut would leave the derived buffers stale
+                            from ..cfg import CFG as _CFG
+                            g_ = _CFG(s.node)
+                            st_nodes = [nd for nd in g_.nodes if nd.kind == "stmt" and isinstance(nd.ast, ast.Assign) and is_self_attr(nd.ast.targets[0], attr)]
+                            if st_nodes and g_.must_pass(st_nodes):
+                                ok = True
         ctx.ob("C12.c", f"{c.name}: non-persistent buffer '{attr}' is recomputed by a load_state_dict post-hook", ok,
                "" if ok else f"'{attr}' is stored by {f.short} at run time, excluded from state_dict(), and no registered post-load hook stores it: "
                f"after restore it keeps the constructor's value", f.where)
